@@ -203,10 +203,10 @@ impl Scenario for Rd {
 pub fn configs(full: bool) -> Vec<RdCfg> {
     let mut v = vec![];
     for (ver, role) in crate::c05::roles() {
-        for read_mode in [ReadMode::All, ReadMode::Lazy, ReadMode::Abandon] {
+        for read_mode in [ReadMode::All, ReadMode::Lazy, ReadMode::LateAll, ReadMode::Abandon] {
             for min_chunk in [0u32, 1, 4, 1024] {
                 for buffer in [4usize, 32 * 1024] {
-                    if !full && ((min_chunk == 1024 && buffer == 4) || (min_chunk == 1 && read_mode != ReadMode::Lazy)) {
+                    if !full && ((min_chunk == 1024 && buffer == 4) || (min_chunk == 1 && read_mode != ReadMode::Lazy) || (read_mode == ReadMode::LateAll && min_chunk == 1024)) {
                         continue;
                     }
                     let mut ep = EpCfg::new(ver, role);
